@@ -49,11 +49,12 @@ def _finish(pid, tier, seed, t0, outs, mc_stats, rule, assumptions, extra_cov=No
         t2 = runner._run_one(sc)
         v2, _ = tlc.validate([t2], jobs=1, open_kf=runner.open_kf_names())
         vv = v2[t2['id']]
-        if vv['verdict'] != 'rejected' or vv['clause'] != v['clause']:
+        if vv['verdict'] != 'rejected' or vv['clause'] != v['clause'] or vv.get('also') != v.get('also'):
             machinery.append((sc['id'], 'violation did not reproduce: %s vs %s' % (v, vv)))
             continue
         path = runner.write_replay(pid, sc, t2, vv)
-        print('VIOLATION property=%s replay=%s clause=%s event=%d' % (pid, path, v['clause'], v['at']))
+        print('VIOLATION property=%s replay=%s clause=%s event=%d all=%s'
+              % (pid, path, v['clause'], v['at'], ','.join(v.get('also', []))))
         reported += 1
     cov = {
         'states': max(states, 0), 'transitions': max(transitions, 0),
